@@ -22,12 +22,42 @@ pub struct Case {
     pub config: Option<Vec<u8>>,
     /// Number of usage-script steps to run before dropping (fault-free runs).
     pub usage: usize,
+    /// GPU only: the k-th command (0-based, both queues) is answered with an error and has no
+    /// effect on the device.
+    pub gpu_err_at: Option<usize>,
+    /// A previous owner left the device running (status 0xf) and the device's reset is slow: the
+    /// first status reads after the reset write still return the old value.
+    pub left_running: bool,
 }
 
 pub struct Out {
     pub class: String,
     pub viols: Vec<(String, String)>,
     pub dma_calls: usize,
+    pub gpu_cmds: usize,
+}
+
+thread_local! {
+    static GPU_CMDS: std::cell::Cell<usize> = const { std::cell::Cell::new(0) };
+    static GPU_ERRS: std::cell::Cell<usize> = const { std::cell::Cell::new(0) };
+    /// Backing regions that were attached when a driver operation last returned success: what a
+    /// successful operation established stays allocated while attached, whatever the device
+    /// answers to later commands.
+    static ESTABLISHED: std::cell::RefCell<Vec<(u32, u64, u32)>> = const { std::cell::RefCell::new(Vec::new()) };
+    static GD: std::cell::RefCell<Option<GpuRc>> = const { std::cell::RefCell::new(None) };
+}
+
+/// Records the outcome of one GPU driver operation.
+fn gpu_op_done(ok: bool) {
+    let att = GD.with(|g| g.borrow().as_ref().map(|g| g.borrow().attached())).unwrap_or_default();
+    ESTABLISHED.with(|e| {
+        let mut e = e.borrow_mut();
+        if ok {
+            *e = att;
+        } else {
+            e.retain(|x| att.contains(x));
+        }
+    });
 }
 
 type GpuRc = std::rc::Rc<std::cell::RefCell<crate::c20::GpuDev>>;
@@ -42,7 +72,12 @@ fn install_dealloc_hook(dev: &DevRc, gpu: Option<GpuRc>) {
             // resources is posted to the device just like a buffer on a queue.
             if let Some(g) = gpu.as_ref().and_then(|g| g.try_borrow().ok()) {
                 if d.status & crate::dev::ST_DRIVER_OK != 0 {
-                    for (id, a, l) in g.attached() {
+                    // After a device error, only what an earlier successful operation established
+                    // is held against the driver (memory attached by the very operation that then
+                    // failed is outside the properties: "in the absence of device errors").
+                    let errs = GPU_ERRS.with(|c| c.get());
+                    let est = ESTABLISHED.with(|e| e.borrow().clone());
+                    for (id, a, l) in g.attached().into_iter().filter(|x| errs == 0 || est.contains(x)) {
                         if a < end && paddr < a + l as u64 {
                             return Some(("dma-freed-while-attached".to_string(), format!("DMA region {:#x} (+{} pages) returned to the platform while the live device still has it attached as backing of resource {:#x}", paddr, pages, id)));
                         }
@@ -275,25 +310,25 @@ fn usage<T: Transport>(d: &mut AnyDriver<T>, co: &CoRc, steps: usize, keep: &mut
             AnyDriver::Gpu(g) => match step {
                 // Operations that allocate DMA memory after construction.
                 0 => {
-                    let _ = g.setup_framebuffer().map(|fb| fb.len());
+                    gpu_op_done(g.setup_framebuffer().is_ok());
                 }
                 1 => {
-                    let _ = g.setup_cursor(&vec![0u8; 64 * 64 * 4], 1, 2, 3, 4);
+                    gpu_op_done(g.setup_cursor(&vec![0u8; 64 * 64 * 4], 1, 2, 3, 4).is_ok());
                 }
                 2 => {
-                    let _ = g.change_resolution(33, 32).map(|fb| fb.len());
-                    let _ = g.flush();
+                    gpu_op_done(g.change_resolution(33, 32).is_ok());
+                    gpu_op_done(g.flush().is_ok());
                 }
                 // The same operations again: what they replace must not be released while the
                 // device still uses it.
                 3 => {
-                    let _ = g.setup_cursor(&vec![0x55u8; 64 * 64 * 4], 5, 6, 7, 8);
+                    gpu_op_done(g.setup_cursor(&vec![0x55u8; 64 * 64 * 4], 5, 6, 7, 8).is_ok());
                 }
                 4 => {
-                    let _ = g.change_resolution(16, 8).map(|fb| fb.len());
+                    gpu_op_done(g.change_resolution(16, 8).is_ok());
                 }
                 _ => {
-                    let _ = g.setup_framebuffer().map(|fb| fb.len());
+                    gpu_op_done(g.setup_framebuffer().is_ok());
                 }
             },
             AnyDriver::P9(p) => {
@@ -312,7 +347,17 @@ pub fn run_case(case: &Case) -> Out {
         cfg.truncate(l);
     }
     let w = DWorld::new(case.kind, case.tkind, case.offered, cfg);
+    if case.left_running {
+        let mut d = w.dev.borrow_mut();
+        d.status_quirk = 2;
+        d.status = 0xf;
+    }
+    GPU_CMDS.with(|c| c.set(0));
+    GPU_ERRS.with(|c| c.set(0));
+    ESTABLISHED.with(|e| e.borrow_mut().clear());
+    let err_at = case.gpu_err_at;
     let gd: GpuRc = std::rc::Rc::new(std::cell::RefCell::new(crate::c20::GpuDev { display: (40, 30), ..Default::default() }));
+    GD.with(|g| *g.borrow_mut() = if case.kind == Kind::Gpu { Some(gd.clone()) } else { None });
     install_dealloc_hook(&w.dev, if case.kind == Kind::Gpu { Some(gd.clone()) } else { None });
     let co = if case.kind == Kind::Gpu {
         // The GPU needs meaningful answers for its allocating operations.
@@ -322,7 +367,18 @@ pub fn run_case(case: &Case) -> Out {
                 let mut g = gd.borrow_mut();
                 let mut errs = vec![];
                 let cmd = crate::c20::decode_gpu(readable, &mut errs);
-                let resp = g.exec(q, &cmd, None);
+                let k = GPU_CMDS.with(|c| {
+                    let k = c.get();
+                    c.set(k + 1);
+                    k
+                });
+                let inject = if err_at == Some(k) {
+                    GPU_ERRS.with(|c| c.set(c.get() + 1));
+                    Some(crate::c20::RESP_ERR_UNSPEC)
+                } else {
+                    None
+                };
+                let resp = g.exec(q, &cmd, inject);
                 g.log.clear();
                 let n = resp.len().min(chain.writable_len());
                 Action::Complete(resp[..n].to_vec(), n as u32)
@@ -338,6 +394,7 @@ pub fn run_case(case: &Case) -> Out {
     let hits = alloc_watch::disarm();
     cosim::uninstall();
     mmio::set_handler(None);
+    GD.with(|g| *g.borrow_mut() = None);
     let mut viols = r.viols;
     for h in hits {
         viols.push(("buffer-freed-while-posted".to_string(), h));
@@ -368,9 +425,9 @@ pub fn run_case(case: &Case) -> Out {
     if case.fail_at.map(|k| k < calls).unwrap_or(false) && r.class == "ok" && case.usage == 0 {
         viols.push(("failure-ignored".to_string(), "a DMA allocation failed but construction reported success".to_string()));
     }
-    Out { class: r.class, viols, dma_calls: calls }
+    Out { class: r.class, viols, dma_calls: calls, gpu_cmds: GPU_CMDS.with(|c| c.get()) }
 }
 
 pub fn base_case(kind: Kind, tkind: TKind) -> Case {
-    Case { kind, tkind, offered: F_VERSION_1 | kind.device_specific_supported(), fail_at: None, config_len: None, config: None, usage: 0 }
+    Case { kind, tkind, offered: F_VERSION_1 | kind.device_specific_supported(), fail_at: None, config_len: None, config: None, usage: 0, gpu_err_at: None, left_running: false }
 }
